@@ -12,8 +12,9 @@ n=0
 for f in sorted(glob.glob('/verif/.cache/patches/c*.patch')):
     prop='C'+re.match(r'c(\d+)-',os.path.basename(f)).group(1)
     txt=open(f).read()
-    m=re.search(r'^Subject: \[PATCH\] (.*?)\n(?=\S|\n)',txt,re.S|re.M)
-    subj=re.sub(r'\n\s+',' ',m.group(1)).strip()
+    import email
+    subj=email.message_from_string(txt)['Subject'] or ''
+    subj=re.sub(r'\s*\n\s*',' ',subj).replace('[PATCH] ','',1).strip()
     h=bysubj.get(subj)
     if not h or h in have: continue
     what=subj[len('fix: '):] if subj.startswith('fix: ') else subj
